@@ -97,7 +97,8 @@ def static_mutants(schema):
         # unknown patterns / temporaries in constraints: added as a further term to every constraint set, and as a new set
         pats = [e[1] for e in r['name'] if e[0] == 'pat' and not e[1].startswith('_')]
         target = pats[0] if pats else None
-        bad_terms = [('constraint-on-unknown-pattern', ['zz', [['lit', 'a']]])]
+        bad_terms = [('constraint-on-unknown-pattern', ['zz', [['lit', 'a']]]),
+                     ('constraint-on-unknown-temporary-pattern', ['_zz', [['lit', 'a']]])]
         if target:
             bad_terms += [('option-names-unknown-pattern', [target, [['lit', 'a'], ['pat', 'zz']]]),
                           ('argument-names-unknown-pattern', [target, [['fn', '$eq', [['pat', 'zz']]]]]),
